@@ -156,6 +156,39 @@ def oracle_full(case):
     return Res(viol, nontrivial, labels, {"worst_err_in_eps_L_g_S": worst})
 
 
+@st.composite
+def case_sweep(draw, tier):
+    case = draw(case_full(tier))
+    N = case["N"]
+    case["L"] = draw(st.one_of(st.integers(2, N), st.sampled_from([16, 64, 128]).map(lambda v: min(v, N))))
+    case["fbins"] = draw(st.lists(st.floats(0.0, 0.5), min_size=2, max_size=5))
+    case["with_full"] = draw(st.booleans())
+    return case
+
+
+def oracle_sweep(case):
+    """A frequency sweep on one analyzer at a fixed segment length (optionally with a full analysis in between): every
+    result is verified AFTER all calls were made - an earlier result must keep its own statistics."""
+    fs, cfg, mode = case["fs"], case["cfg"], case["mode"]
+    x, y, data = _data(case)
+    an = gens.make_analyzer(data, fs, cfg)
+    results = []
+    for k, fb in enumerate(case["fbins"]):
+        results.append(an.compute_single_bin(fb * fs, L=case["L"]))
+        if case["with_full"] and k == 0:
+            results.append(an.compute())
+    viol = []
+    for r in results:
+        idx = [0] if len(r.f) == 1 else pick_bins(len(r.f))[:8]
+        check_bins(r, x, y, fs, cfg, mode, idx, viol, "sweep")
+        if viol:
+            break
+    for r, fb in zip([r for r in results if len(r.f) == 1], case["fbins"]):
+        if float(r.f[0]) != fb * fs:
+            viol.append(V("sweep_result_frequency_changed", f=float(r.f[0]), expected=fb * fs))
+    return Res(viol, True, ["sweep:%s,o=%d,%s" % (cfg["backend"], cfg["order"], mode), "sweep:with-full" if case["with_full"] else "sweep:single-only"])
+
+
 def oracle_single(case):
     fs, cfg, mode, N = case["fs"], case["cfg"], case["mode"], case["N"]
     x, y, data = _data(case)
@@ -256,6 +289,7 @@ PARTS = [
     Part("full", case_full, oracle_full, n_quick=60, n_thorough=400),
     Part("single", case_single, oracle_single, n_quick=150, n_thorough=1500),
     Part("band", case_band, oracle_band, n_quick=50, n_thorough=300),
+    Part("sweep", case_sweep, oracle_sweep, n_quick=40, n_thorough=400),
 ]
 QUOTAS = {"single:above-nyquist": {"quick": 60, "thorough": 1000}, "distinctL>=3": {"quick": 100, "thorough": 2000}, "band:strict-subset": {"quick": 60, "thorough": 1000},
           "band:empty": {"quick": 3, "thorough": 50}, "win:kaiser": {"quick": 20, "thorough": 400}}
